@@ -39,6 +39,7 @@ def build(tier="quick", seed=0):
     orbit_derivatives(b)
     global_collapse(b)
     layered_collapse(b)
+    layered_getters(b)
     b.replayer("*::ensures:love_numbers_current*", _replay_fixed_q)
     b.replayer("*::invariant:compliance_is_reciprocal_shear*", _replay_strength)
     b.replayer("*::ensures:orbit_is_told*", _replay_strength)
@@ -757,6 +758,89 @@ def layered_collapse(b):
                     ok_store = False
                     detail += f"{dname}[ocean] not None; "
         ground(b, f"{fn.key}::ensures:per_layer_stores{tag}", fn.key, "ensures each layer's heating, dU/dM, dU/dw, dU/dO and -Im k are stored under that layer's key; an inactive layer gets None", ok_store, detail=detail[:400])
+
+
+def layered_getters(b):
+    """LayeredTides.reinit: the per-layer input getters stored for the collapse return, for EVERY tidally active layer, that layer's own tidal scale,
+    radius, bulk density and surface gravity (the real loop is executed; closures have Python's late-binding semantics)."""
+    rel = "TidalPy/tides/methods/layered.py"
+    try:
+        fn = Fn(rel, "LayeredTides.reinit")
+    except ExtractError as e:
+        b.subset_exits.append(str(e))
+        return
+    loops = [n for n in ast.walk(fn.node) if isinstance(n, ast.For) and ast.unparse(n.iter) == "self.world" and "_tidal_input_getters_by_layer" in ast.unparse(n)]
+    if len(loops) != 1:
+        b.subset_exits.append(f"{fn.key}: getter loop not found ({len(loops)})")
+        return
+
+    def mk(nm, tidal):
+        return Obj(None, name=nm, is_tidal=tidal, tidal_scale=R(nm + "_scale"), radius=R(nm + "_R"), density_bulk=R(nm + "_rho"), gravity_surface=R(nm + "_g"), gravity=R(nm + "_g_state"), _open=True)
+    layers = [mk("core", True), mk("ocean", False), mk("mantle", True), mk("crust", True)]
+    o = Obj(None, world=layers, _tidal_input_getters_by_layer={}, _world_tidal_input_getters=None)
+    fr, ex, paths = run_fragment(b, fn, [loops[0]], "input_getters", dict(self=o), [], globals_env=dict(BadAttributeValueError="BadAttributeValueError"), opts=dict(definedness=False))
+    if not paths:
+        return
+    if len(paths) != 1:
+        b.subset_exits.append(f"{fr.key}: {len(paths)} paths")
+        return
+    stored = o._attrs["_tidal_input_getters_by_layer"]
+    wrong = []
+    for L in layers:
+        g_ = stored.get(L) if isinstance(stored, dict) else None
+        nm = L._attrs["name"]
+        if not L._attrs["is_tidal"]:
+            if g_ is not None:
+                wrong.append((nm, "inactive layer has getters"))
+            continue
+        if not (isinstance(g_, tuple) and len(g_) == 4 and all(callable(f_) for f_ in g_)):
+            wrong.append((nm, f"stored {g_!r}"))
+            continue
+        try:
+            vals = [f_(ex, loops[0]) for f_ in g_]
+        except SymExError as e:
+            b.subset_exits.append(f"{fr.key}: calling a stored getter: {e}")
+            return
+        want = [R(nm + "_scale"), R(nm + "_R"), R(nm + "_rho"), R(nm + "_g")]
+        for what, v_, w_ in zip(("tidal_scale", "radius", "density_bulk", "gravity_surface"), vals, want):
+            if not (v_ is w_ or v_ == w_):
+                wrong.append((nm, what, str(v_)))
+    ground(b, f"{fn.key}::ensures:getters_return_own_layer", fn.key,
+           "ensures for every tidally active layer the stored getters return THAT layer's tidal scale, radius, bulk density and surface gravity (an inactive layer gets None)",
+           not wrong, detail=str(wrong)[:400], refuted_model=None if not wrong else dict(wrong=str(wrong[:4])))
+    b.replayer(f"{fn.key}::ensures:getters_return_own_layer", _replay_getters)
+
+
+_C13_GETTERS = r'''
+import logging, warnings
+import numpy as np
+warnings.filterwarnings('ignore')
+from TidalPy.structures import build_world, build_from_world
+from TidalPy.structures.orbit import PhysicsOrbit
+logging.disable(logging.CRITICAL)
+STAR = build_world('55cnc'); IO = build_world('io_simple')
+c = {"force_spin_sync": True, "type": "layered", "tides": {"model": "layered", "eccentricity_truncation_lvl": 2, "max_tidal_order_l": 2, "obliquity_tides_on": True, "use_planet_params_for_love_calc": False},
+     "layers": {"Core": {"is_tidally_active": True}, "Mantle": {"is_tidally_active": True}}}
+ww = build_from_world(IO, new_config=c); ss = build_from_world(STAR, new_config={})
+oo = PhysicsOrbit(ss, tidal_host=ss, tidal_bodies=ww)
+out = {}
+for layer, getters in ww.tides._tidal_input_getters_by_layer.items():
+    if getters is None: continue
+    ts, r, rho, g = [float(f()) for f in getters]
+    out[layer.name] = dict(getter=[ts, r, rho, g], own=[float(layer.tidal_scale), float(layer.radius), float(layer.density_bulk), float(layer.gravity_surface)])
+result = out
+'''
+
+
+def _replay_getters(ob, res):
+    from tpv import native
+    out = native.run(dict(code=_C13_GETTERS), timeout=900)
+    rec = dict(replayed=True, native=out, what="layered Io with Core and Mantle tidally active: what each layer's stored getters return vs the layer's own tidal scale, radius, bulk density, surface gravity")
+    try:
+        rec["confirmed"] = any(max(abs(a_ - b_) / max(abs(b_), 1e-300) for a_, b_ in zip(v_["getter"], v_["own"])) > 1e-12 for v_ in out["result"].values())
+    except Exception:
+        rec["confirmed"] = "exception" in out
+    return rec
 
 
 def layered_sums(b):
